@@ -163,4 +163,16 @@ CHECKS = {
            "Not decided: names outside the AFM WORD token; deeper random trees."),
   "design_ref": "DESIGN.md §5 C06", "note": _NOTE + " The generated AFM lexer/parser of afmparser is trusted as the grammar.",
   "technique": "static analysis: writer/reader agreement (CODEC) by evaluating both transformation ASTs over finite abstractions of every carried dimension; generated recogniser as grammar table; truth-table equivalence"},
+ "C09": {
+  "text": ("The four readers' transform() are evaluated from source on documents written by independent reference emitters "
+           "(FeatureIDE XML, FaMa XML, Glencoe JSON, AFM text) from a reference abstract model, using each format's "
+           "syntactic freedom (optional attributes present/absent with either value, attribute order, graphics/"
+           "description elements, cardinality element position, ids distinct from names, whitespace, parentheses). "
+           "Decided per document: the abstract model read equals the denoted model (constraints by truth table) and is "
+           "well-formed; n-ary rules keep all operands; missing constraints section = no constraints; cardinalities as "
+           "written; unrepresentable constructs (unknown rule/term/group type, relational AFM constraint, no feature) "
+           "reach a raise of FlamaException. Not decided: the 1299 shipped files against Betty statistics (runtime "
+           "corpus)."),
+  "design_ref": "DESIGN.md §5 C09", "note": _NOTE,
+  "technique": "static analysis: reader ASTs evaluated over reference documents of four formats (all syntactic-freedom combinations); model comparison with truth-table equivalence; must-raise checks for unsupported constructs"},
 }
